@@ -33,6 +33,7 @@ MCHStep(t) ==
   \/ Complete(t) /\ H_Complete(t)
   \/ Ld(t) /\ H_Ld(t)
   \/ Dec(t) /\ H_Dec(t)
+  \/ \E n \in 1 .. MaxNodes : PollRead(t, n) /\ UNCHANGED mcv
 MCHNext == \E t \in Threads : MCHStep(t)
 MCHSpec == HInit /\ [][MCHNext]_<<allv, hbv>>
 
@@ -57,4 +58,5 @@ A_nofork == {"join", "queue", "wait"}
 A_nojoin == {"fork", "queue", "wait"}
 A_noqueue == {"fork", "join", "wait"}
 A_nowait == {"fork", "join", "queue"}
+A_poll == {"fork", "join", "queue", "wait", "poll"}
 =============================================================================
